@@ -165,7 +165,7 @@ def arbitrary_baits(rng, scafs, painted_p=0.5):
     return ptx
 
 
-def decorate_tags(rng, ptx, mode="mixed", two_haps=False):
+def decorate_tags(rng, ptx, mode="mixed", two_haps=False, primary=False):
     """consistent tagging in the PretextView model: returns ptx with tags added (in place on a deep copy)"""
     import copy
     ptx = copy.deepcopy(ptx)
@@ -194,6 +194,9 @@ def decorate_tags(rng, ptx, mode="mixed", two_haps=False):
                     tags.append(nametag)
                 if hap:
                     tags.append(hap)
+                    if primary and not primary_used and hap == haps[0]:
+                        tags.append("Primary")        # Primary mode: only this haplotype is curated, the others are merged into all_haplotigs
+                        primary_used = True
                 if sc_target:
                     tags.append("Target")
             r = rng.random()
@@ -1413,8 +1416,8 @@ def make_case(rng, kind, **kw):
         ptx = perturb(rng, ptx, inp)
     elif kind == "baits":
         ptx = arbitrary_baits(rng, inp)
-    elif kind in ("tagged", "tagged2"):
-        ptx = decorate_tags(rng, ptx, two_haps=(kind == "tagged2"))
+    elif kind in ("tagged", "tagged2", "primarymode"):
+        ptx = decorate_tags(rng, ptx, two_haps=(kind in ("tagged2", "primarymode")), primary=(kind == "primarymode"))
     return {"kind": kind, "input": inp, "ptx": ptx, "bpt": bpt}
 
 
